@@ -192,6 +192,8 @@ type ErrResp struct {
 	Body    *BodySpec `json:"body,omitempty"`
 	// FuncCode: the status is given inside the response DSL (Response("name", func() { Code(409) }))
 	FuncCode bool `json:"func_code,omitempty"`
+	// ContentType designed for this error response (ContentType("application/xml"))
+	ContentType string `json:"content_type,omitempty"`
 }
 
 // GRPCMap is the gRPC mapping.
